@@ -167,8 +167,11 @@ pub fn run(out: &mut Out, sched: &Value) {
     let names = [(ka.public().to_peer_id(), "A"), (kb.public().to_peer_id(), "B"), (km.public().to_peer_id(), "M")];
     let det = Det::new();
     let recorded = if attack == "replay" { Some(record(&ka, &kb)) } else { None };
-    let mut a = party("A", &ka, true, if attack == "prologue" { b"one" } else { b"" });
-    let mut b = party("B", &kb, false, if attack == "prologue" { b"two" } else { b"" });
+    let pa = sched.get("pa").and_then(|x| x.as_str()).unwrap_or(if attack == "prologue" { "one" } else { "" }).to_string();
+    let pb = sched.get("pb").and_then(|x| x.as_str()).unwrap_or(if attack == "prologue" { "two" } else { "" }).to_string();
+    assert_eq!(attack == "prologue", pa != pb, "attack=prologue iff the prologues differ");
+    let mut a = party("A", &ka, true, pa.as_bytes());
+    let mut b = party("B", &kb, false, pb.as_bytes());
     if attack == "splice" {
         // M runs the real handshake with its own static key but presents a spliced identity payload
         let variant = vcommon::s(sched, "variant");
@@ -347,6 +350,10 @@ fn generate(out: &mut Out, deep: bool, seed: u64) {
         run(out, &json!({"key": kt, "attack": "none"}));
         run(out, &json!({"key": kt, "attack": "mitm"}));
         run(out, &json!({"key": kt, "attack": "prologue"}));
+        run(out, &json!({"key": kt, "attack": "prologue", "pa": "", "pb": "two"}));
+        run(out, &json!({"key": kt, "attack": "prologue", "pa": "one", "pb": ""}));
+        run(out, &json!({"key": kt, "attack": "prologue", "pa": "one", "pb": "one "}));
+        run(out, &json!({"key": kt, "attack": "none", "pa": "same", "pb": "same"}));
         for m in 1..=3 {
             for at in ["drop", "dup", "replay"] {
                 run(out, &json!({"key": kt, "attack": at, "msg": m}));
